@@ -76,6 +76,17 @@ Theorem C07_conc_writes_serializable (HL : HashLen hash) ws f0 pl' f' rs :
     (forall k, abs_idx hash f' k = fold_left spec_step (map (x_hop hash) perm) (abs_idx hash f0) k).
 Proof. exact (conc_writes_serializable hash HL ws f0 pl' f' rs). Qed.
 
+(* readers: a lookup is a single step; in any reachable state of a pool of index writers it answers the serial state of the
+   operations appended so far, and later observations see longer prefixes of the same order (linearisability of lookups;
+   no reader observes a partial index record) *)
+Theorem C07_observations_monotone hs f0 s1 s2 :
+  IndexInv f0 -> Forall (wf_hop hash) hs ->
+  preach (map (hop_prog hash) hs, f0) s1 -> preach s1 s2 ->
+  exists done ext,
+    (forall k, run (find hash k) (snd s1) = (Ok (fold_left spec_step (hops_of hs done) (abs_idx hash f0) k), snd s1)) /\
+    (forall k, run (find hash k) (snd s2) = (Ok (fold_left spec_step (hops_of hs (done ++ ext)) (abs_idx hash f0) k), snd s2)).
+Proof. exact (observations_monotone hash hs f0 s1 s2). Qed.
+
 (* the thread programs of that theorem are the library's write_sync programs (async write runs identically: C12) *)
 Theorem C07_wprog_is_write x : wprog hash x = write hash Sync (ws_a x) (ws_key x) (ws_data x) (ws_now x).
 Proof. reflexivity. Qed.
@@ -194,6 +205,7 @@ Print Assumptions C07_conc_content_inv.
 Print Assumptions C07_appends_never_splice.
 Print Assumptions C07_conc_index_serializable.
 Print Assumptions C07_conc_writes_serializable.
+Print Assumptions C07_observations_monotone.
 Print Assumptions C07_hop_prog_is_insert.
 Print Assumptions C07_pairs_serializable.
 Print Assumptions C07_pairs_all_interleavings.
